@@ -65,10 +65,10 @@ def run_c14(prop, tier, seed, scratch):
 
 def run_c17(prop, tier, seed, scratch):
     q = tier == "quick"
-    base = [("int", -1), ("int", 0), ("int", 2), ("float", -2), ("float", -1), ("float", 0), ("float", 3), ("str", 1), ("str", 2), ("str", 3),
+    base = [("int", -4), ("int", 0), ("int", 4), ("float", -2), ("float", -1), ("float", 0), ("float", 3), ("str", 1), ("str", 2), ("str", 3),
             ("O", 1), ("O", 2), ("nil", 0)]
     cfgs = [dict(name="mixed", family="sort", tokens=base, maxlen=4 if q else 5)]
-    homo = [("ints", [("int", -1), ("int", 0), ("int", 2)]), ("floats", [("float", -2), ("float", -1), ("float", 0), ("float", 3)]),
+    homo = [("ints", [("int", -4), ("int", 0), ("int", 4)]), ("floats", [("float", -2), ("float", -1), ("float", 0), ("float", 3)]),
             ("strs", [("str", 1), ("str", 2), ("str", 3)])]
     for n, ts in homo:
         cfgs.append(dict(name=n, family="sort", tokens=ts, maxlen=6 if q else 8))
